@@ -34,18 +34,22 @@ func refYAML(c refCase, declOrder int) string {
 		fmt.Fprintf(&b, "  %s:\n    command: [\"echo %s\"]\n", t, t)
 	}
 	b.WriteString("pipelines:\n")
-	names := []string{"p1", "p2", "p3"}
+	names := []string{"p1", "p2", "p3", "p4"}
 	if declOrder%2 == 1 {
-		names = []string{"p3", "p2", "p1"}
+		names = []string{"p4", "p3", "p2", "p1"}
 	}
 	for _, p := range names {
 		fmt.Fprintf(&b, "  %s:\n", p)
 		for _, s := range c.Cfg.Pipes[p] {
-			fmt.Fprintf(&b, "    - name: %s\n", s.Name)
+			first := "    - "
+			if s.Name != "" {
+				fmt.Fprintf(&b, "    - name: %s\n", s.Name)
+				first = "      "
+			}
 			if s.Task != "" {
-				fmt.Fprintf(&b, "      task: %s\n", s.Task)
+				fmt.Fprintf(&b, "%stask: %s\n", first, s.Task)
 			} else {
-				fmt.Fprintf(&b, "      pipeline: %s\n", s.Pipe)
+				fmt.Fprintf(&b, "%spipeline: %s\n", first, s.Pipe)
 			}
 			if len(s.Deps) > 0 {
 				fmt.Fprintf(&b, "      depends_on: [%s]\n", strings.Join(s.Deps, ", "))
@@ -69,8 +73,8 @@ func CheckC18(env *core.Env, rep *core.Report) *core.Result {
 		cases = append(cases, c)
 	}
 	e.note("Refs", r, fmt.Sprintf("%d configurations: the base one and one per broken reference (stage->task x5, stage->pipeline x1, depends_on unknown / other pipeline's stage x4 each, duplicate stage name x4, watcher->task, inclusion cycles of length 1, 2, 3); WellFormed evaluated; OnlyBaseWellFormed holds", len(cases)))
-	if len(cases) != 24 {
-		core.Broken("Refs emitted %d cases, expected 24", len(cases))
+	if len(cases) != 30 {
+		core.Broken("Refs emitted %d cases, expected 30", len(cases))
 	}
 	sort.Slice(cases, func(i, j int) bool { return core.JSON(cases[i].Mut) < core.JSON(cases[j].Mut) })
 	n := 0
@@ -109,7 +113,7 @@ func CheckC18(env *core.Env, rep *core.Report) *core.Result {
 			}
 			// consequence: pipelines of an accepted configuration run to completion
 			if list.Exit == 0 {
-				for _, p := range []string{"p1", "p2", "p3"} {
+				for _, p := range []string{"p1", "p2", "p3", "p4"} {
 					run := e.run(d, "", 10*time.Second, "-c", f, "--raw", p)
 					n++
 					if run.TimedOut {
